@@ -20,6 +20,8 @@
  */
 #ifndef STUBS_REGP_BACKEND_H
 #define STUBS_REGP_BACKEND_H
+#include <ufw/allocator.h>
+#include <ufw/register-protocol.h>
 
 /* ---- ghost state (defined in harness/regp-proc.c) ------------------------ */
 #define BE_READ16  1
